@@ -306,4 +306,7 @@ class EnvSpec:
                 return EnvCompatibility.LOWER_OR_EQUAL
             else:
                 return EnvCompatibility.HIGHER
+        if self.platform.os != target.platform.os:
+            # releases that cannot be ordered (BSD, generic names) accept only their own tag
+            return EnvCompatibility.INCOMPATIBLE
         return EnvCompatibility.LOWER_OR_EQUAL
